@@ -45,6 +45,7 @@ fn with_event(op: &str, z: Dz, u: NaiveDateTime, off: i32, f: &str, v: i64, reg:
 pub fn run(ctx: &Ctx) -> Value {
     let mut tw = Tw::new(&ctx.out, "Trace_DateTimeTz", ctx.t(2_500, 15_000));
     let mut sh = Tw::new(&ctx.out, "Trace_Show", ctx.t(2_500, 15_000));
+    let mut st = Tw::new(&ctx.out, "Trace_Strftime", ctx.t(2_500, 15_000));
     let mut rng = Rng::new(ctx.seed ^ 0x04);
     let us = instants(&mut rng, ctx.t(30, 3_000));
     tw.emit(ev("defaults", json!({}), || json!({"utc": ndt(DateTime::<Utc>::default().naive_utc()), "fixed": ndt(DateTime::<FixedOffset>::default().naive_utc()), "fixed_off": DateTime::<FixedOffset>::default().offset().local_minus_utc(),
@@ -76,7 +77,9 @@ pub fn run(ctx: &Ctx) -> Value {
                            "lf": ndt(lf.naive_utc()), "lf_off_same": lf.offset().local_minus_utc() == chrono::Offset::fix(local.offset()).local_minus_utc(), "ul": ndt(ul.naive_utc()),
                            "nd": dn(nd), "dn": ndt(dn_),
                            "eq_x": z == utc && utc == z && fixed == local && local == z, "cmp_x": z.partial_cmp(&utc) == Some(std::cmp::Ordering::Equal) && local.partial_cmp(&fixed) == Some(std::cmp::Ordering::Equal),
-                           "since_x": dur(z.signed_duration_since(utc)), "since_l": dur(local.signed_duration_since(z))}) }));
+                           "since_x": dur(z.signed_duration_since(utc)), "since_l": dur(local.signed_duration_since(z)),
+                           "sys": big({ let st = std::time::SystemTime::from(z); match st.duration_since(std::time::UNIX_EPOCH) { Ok(d) => d.as_nanos() as i128, Err(e) => -(e.duration().as_nanos() as i128) } }),
+                           "sys_back": ndt(DateTime::<Utc>::from(std::time::SystemTime::from(z)).naive_utc())}) }));
             }
             // wall-clock accessors work in the one-day headroom too
             tw.emit(ev("wall", json!({"u": ndt(u), "off": off}), || { let iw = z.iso_week(); json!({"y": z.year(), "mo": z.month(), "d": z.day(), "ord": z.ordinal(), "wd": wd(z.weekday()),
@@ -88,6 +91,12 @@ pub fn run(ctx: &Ctx) -> Value {
               if hr == 1 || i % 16 == 0 {
                   sh.emit(ev("show", json!({"ty": "fixed", "u": ndt(u), "off": off, "headroom": hr}), || json!({"display": crate::big::cps(&z.to_string()), "debug": crate::big::cps(&format!("{:?}", z))})));
               } }
+            // RFC 3339 text (to_rfc3339 and the %+ item share the writer): leap seconds under offsets with a seconds part in particular
+            if u.time().nanosecond() >= 1_000_000_000 || i % 16 == 0 {
+                let v = crate::w::c12::Val::Z(z);
+                st.emit(crate::w::c12::fmt_event(&v, "%+"));
+                st.emit(ev("fmt", json!({"ty": "dt", "v": v.json(), "f": crate::big::cps("%+"), "route": "to_rfc3339"}), || { let t = json!({"ok": crate::big::cps(&z.to_rfc3339())}); json!({"r": t.clone(), "w": t}) }));
+            }
             // the wall clock, used as input of from_local_datetime (only when it is a valid naive value)
             if let Ok(w) = crate::guard(|| z.naive_local()) {
                 for &off2 in &[off, -off, 0] {
@@ -186,6 +195,7 @@ pub fn run(ctx: &Ctx) -> Value {
     }
     tw.finish();
     sh.finish();
+    st.finish();
     let dz = super::datez::run(ctx);      // the deprecated Date<Tz> type, judged by Trace_DateTz.tla
     json!({"events": tw.total, "instants": us.len(), "offsets": OFFS.len(), "replacement_events": n_ev[1], "session_steps": n_ev[3], "sessions": sessions,
            "wall_clock_text_events": sh.total, "date_tz_events": dz["date_tz_events"], "date_tz_dates": dz["date_tz_dates"]})
